@@ -115,8 +115,12 @@ def check(run: Run) -> None:
         if dotted(c.func) == "SI.set_quantity_scale_factor" and len(c.args) == 2:
             run.ob("S4", "Quantity.__init__:scale-is-collected")
             sl = q.slice(n, c.args[1])
-            if "collect_quantity_factor_and_dimension" not in sl.calls or "expr" not in sl.params or any(isinstance(x, ast.BinOp) for e in sl.exprs for x in ast.walk(e)):
-                run.violate("S4", f"{q.qual}:scale", q.mod, c, "the registered scale factor is not the collected factor of `expr` unchanged")
+            touched = sorted(sl.calls - {"collect_quantity_factor_and_dimension", "sympify", "S"})
+            if "collect_quantity_factor_and_dimension" not in sl.calls or "expr" not in sl.params or touched \
+                    or any(isinstance(x, (ast.BinOp, ast.UnaryOp)) and not isinstance(getattr(x, "op", None), ast.Not) for e in sl.exprs for x in ast.walk(e)):
+                run.violate("S4", f"{q.qual}:scale", q.mod, c,
+                            "the registered scale factor is not the collected factor of `expr` unchanged"
+                            + (f": it passes through {touched} on some path (rounding, dropping a part or re-scaling changes the SI value the quantity stands for)" if touched else ""))
         if dotted(c.func) == "SI.set_quantity_dimension" and len(c.args) == 2:
             run.ob("S4", "Quantity.__init__:dimension-is-collected")
             sl = q.slice(n, c.args[1])
